@@ -1714,14 +1714,14 @@ func (d *DotGit) Module(name string) (billy.Filesystem, error) {
 }
 
 // AddAlternate appends an alternate object directory path to the alternates file.
-func (d *DotGit) AddAlternate(remote string) error {
+func (d *DotGit) AddAlternate(remote string) (err error) {
 	altpath := d.fs.Join(objectsPath, infoPath, alternatesPath)
 
 	f, err := d.fs.OpenFile(altpath, os.O_APPEND|os.O_CREATE|os.O_WRONLY, 0o640)
 	if err != nil {
 		return fmt.Errorf("cannot open file: %w", err)
 	}
-	defer func() { _ = f.Close() }()
+	defer ioutil.CheckClose(f, &err)
 
 	if locker, ok := f.(billy.Locker); ok {
 		// locking in windows throws an error, based on comments
